@@ -322,4 +322,8 @@ def run(ctx):
     # the stream is attempted in every dump: its writer is on every success path of generate_dump (same rule instance as C01/every-stream-attempted)
     from rules import c01 as _c01
     _c01.rule_stream_attempted(ctx, R="C05/stream-attempted", only=("exception_stream::write",))
+    # "names the blamed thread ... the blamed thread's thread-list entry": a thread whose name cannot be read is still listed
+    # (same rule instance as C04/every-tid-listed)
+    from rules import c04 as _c04e
+    _c04e.rule_every_tid_listed(ctx, R="C05/blamed-thread-listed")
 
